@@ -124,6 +124,67 @@ func H_C11() {
 	vReach("c11-done")
 }
 
+// H_C11_xor: content chosen against the checksum's algebra. A shard checksum is the XOR of per-record CRC-32s and
+// CRC-32 is affine, so four equal-length records whose bytes XOR to zero contribute nothing to it. Seven concrete
+// one-byte keys: with two shards the second shard holds exactly such a group {0x10,0x11,0x12,0x13}, its stored
+// checksum is 0. Damage: any single byte of any shard file set to zero or XOR-ed with a mask, or a truncation.
+// The restore must return an error or exactly the stored items.
+func H_C11_xor() {
+	cfg, c := vConfig()
+	DiskBlockSize = vBound("blocksize")
+	dir := vFSDir() + "/c11x"
+	db := NewWithConfig(cfg)
+	ws := vWriters(db, 1)
+	var g vSetModel
+	keys := [7]byte{1, 2, 3, 0x10, 0x11, 0x12, 0x13}
+	for i, k := range keys {
+		ws[0].Put2(c.item(k, byte(i+1)))
+		g.put(int(k), c.val(byte(i+1)))
+	}
+	snap, _ := db.NewSnapshot()
+	snap.Open()
+	if db.StoreToDisk(dir, snap, 1, nil) != nil {
+		vFail("fixture: StoreToDisk failed")
+	}
+	nfiles := vFSNumFiles()
+	fi := vRange("file", 0, 0, nfiles-1)
+	name := vFSFileName(fi)
+	if !vIsShard(name) {
+		vAssume(false)
+	}
+	sz := vFSSize(name)
+	if sz <= 0 {
+		vAssume(false)
+	}
+	off := vRange("off", 0, 0, sz-1)
+	switch vChoice("kind", 0, 3) {
+	case 0:
+		if vFSGetByte(name, off) == 0 {
+			vAssume(false) // not a damage
+		}
+		vFSSetByte(name, off, 0)
+		vReach("byte-zeroed")
+	case 1:
+		masks := [3]byte{0x01, 0x80, 0xff}
+		vFSSetByte(name, off, vFSGetByte(name, off)^masks[vChoice("mask", 0, 3)])
+	case 2:
+		vFSTruncate(name, off)
+	}
+	db2 := NewWithConfig(cfg)
+	snap2, err := db2.LoadFromDisk(dir, vRange("lconcurr", 0, 1, 2), nil)
+	if err == nil {
+		if snap2 == nil {
+			vFail("LoadFromDisk returned neither a snapshot nor an error")
+			return
+		}
+		vReach("damage-tolerated")
+		vScanCheck(db2, c, snap2, &g, "snapshot restored from a damaged backup")
+	} else {
+		vReach("damage-detected")
+	}
+	vReach("c11-xor-done")
+}
+
 // H_C12_budget: if writes start failing at any byte budget, StoreToDisk must not report success for a backup
 // that cannot be restored.
 func H_C12_budget() {
